@@ -188,6 +188,8 @@ def run(ctx: Ctx) -> None:
             if enc(unescapeAll(s)) != g:
                 ctx.mismatch("unescapeAll: implementation and model differ", {"input": s, "impl": unescapeAll(s), "model": dec(g)})
                 break
+        from . import rxtie
+        rxtie.tie_leaf(ctx, drv, quick)      # translated regular expressions + inline leaf rules (autolink, html_inline, entity)
     finally:
         drv.close()
     ctx.partial += [
